@@ -3,3 +3,6 @@ import Dicom.Props.C02
 #print axioms Dicom.C02.length_reported
 #print axioms Dicom.C02.impl_agrees_with_spec
 #print axioms Dicom.C02.layouts_are_standard
+#print axioms Dicom.C02.conformant_decodes
+#print axioms Dicom.C02.strict_reader_accepts_only_encodings
+#print axioms Dicom.C02.strict_reader_injective
